@@ -397,6 +397,24 @@ def case_step(case):
                     r.close("constructor integral_scale= == assignment of integral_scale then var (len_scale)", a.len_scale, b.len_scale, rtol=1e-9, form="integral_scale", **ex)
                     r.close("constructor integral_scale= == assignment of integral_scale then var (var_raw)", a.var_raw, b.var_raw, rtol=1e-9, form="integral_scale", **ex)
                     r.close("constructor integral_scale= == assignment (anis)", a.anis, b.anis, rtol=1e-12, form="integral_scale", **ex)
+        # parameters given as arrays: not written, not kept by reference, not shared between models
+        if not cfg["latlon"] and st["dim"] >= 2:
+            na = nang(st["dim"])
+            arr = np.array([0.3, 0.2, 0.1, 0.4, 0.5, 0.6][:na], dtype=np.double)
+            ans = np.array([0.5, 2.0, 0.7][: st["dim"] - 1], dtype=np.double)
+            keep_a, keep_s = arr.copy(), ans.copy()
+            a = C(var=1.0, len_scale=st["len_scale"], **dict(base, angles=arr, anis=ans))
+            b = C(var=1.0, len_scale=st["len_scale"], **base)
+            b.angles = a.angles
+            b.anis = a.anis
+            ang_a, anis_a = np.array(a.angles), np.array(a.anis)
+            r.close("arrays given as angles / anis are not written", np.concatenate([arr, ans]), np.concatenate([keep_a, keep_s]), rtol=0, atol=0, form="arrays", **ex)
+            arr *= 2.0
+            ans *= 0.5
+            if st["dim"] > 2:
+                b.dim = st["dim"] - 1
+            b.angles = 0.0
+            r.close("model parameters do not follow the arrays they were given as, nor another model they were copied to", np.concatenate([np.array(a.angles), np.array(a.anis)]), np.concatenate([ang_a, anis_a]), rtol=0, atol=0, form="arrays", **ex)
         return r.done(outcome=canon(cfg, st))
     _touch(m, hist[0])
     for i, op in enumerate(hist):
@@ -594,6 +612,10 @@ def ops_for(cfg, tier="quick"):
         A({"k": "rescale", "v": v})
     A({"k": "bounds", "name": "var", "b": [2.5, 10.0]})
     A({"k": "bounds", "name": "anis", "b": [0.1, 10.0]})
+    A({"k": "bounds", "name": "len_scale", "b": [0.5, 4.0]})
+    if cfg["cls"] != "JBessel":
+        A({"k": "integral_scale", "v": 6.5})
+        A({"k": "integral_scale", "v": 0.2})
     A({"k": "bounds", "name": "len_scale", "b": [0.01, 100.0, "oo"]})
     A({"k": "bounds", "name": "nugget", "b": [0.0, 0.3, "co"], "via": "property"})
     A({"k": "bounds", "name": "var", "b": [0.5, 3.0, "oc"]})
